@@ -250,6 +250,7 @@ func lineKeyGot(l graph.Line) string {
 }
 
 type multiCfg struct {
+	mixed   bool   // add SetLine operations with mixed end point node values (endFlavours)
 	wfunc   string // EdgeWeightFunc of the weighted multigraphs: "" = nil (sum), "max"
 	kind    mkind
 	variant string
@@ -289,6 +290,14 @@ func multiOps(cfg *multiCfg) []op {
 		for _, p := range cfg.pairs {
 			for _, lid := range cfg.lids {
 				ops = append(ops, op{kind: opSetLine, i: p[0], j: p[1], lid: lid, w: w, name: fmt.Sprintf("SetLine(%d,%d,id=%d,w=%s)", p[0], p[1], lid, fmtW(w))})
+			}
+		}
+	}
+	if cfg.mixed {
+		for _, fl := range endFlavours {
+			for _, p := range cfg.pairs {
+				ops = append(ops, op{kind: opSetLine, i: p[0], j: p[1], lid: cfg.lids[0], w: cfg.weights[0], mixed: true, ft: fl[0], tt: fl[1],
+					name: fmt.Sprintf("SetLine(%d,%d,id=%d,w=%s,ends=%s)", p[0], p[1], cfg.lids[0], fmtW(cfg.weights[0]), flavourName(fl[0], fl[1]))})
 			}
 		}
 	}
@@ -385,8 +394,15 @@ func (y *multiSys) apply(s *mInst, k int) (string, bool) {
 			m.removeNode(o.i)
 		case opSetLine:
 			s.touched[m.pkey(o.i, o.j)] = true
-			s.set(tLine{F: tNode{Id: o.i, Tag: 1}, T: tNode{Id: o.j, Tag: 1}, W: o.w, UID: o.lid})
-			m.nodes[o.i], m.nodes[o.j] = 1, 1
+			ft, tt := 1, 1
+			if o.mixed {
+				ft, tt = o.ft, o.tt
+			}
+			s.set(tLine{F: mkNode(o.i, ft, ownMulti), T: mkNode(o.j, tt, ownMulti), W: o.w, UID: o.lid})
+			// "If the nodes do not exist, they are added and are set to the nodes of
+			// the line otherwise": from first, then to (a self loop keeps the to value)
+			m.nodes[o.i] = ft
+			m.nodes[o.j] = tt
 			m.setLine(o.i, o.j, o.lid, mLine{w: o.w})
 		case opNewLine:
 			answers := y.linePool(s, o.i, o.j).possibleNewIDs()
